@@ -181,7 +181,9 @@ def shard_programs(seed, examples):
               suppress_health_check=list(HealthCheck))
     @given(strat)
     def body(ex):
-        li, nzcv, ks, te, hsel, entropy, ci = ex
+        mx = e1prop.mixed(ex)             # flatten Hypothesis' small-value bias (see e1prop.mixed)
+        li, nzcv, ks, te, hsel, entropy, ci = (mx.randrange(len(LEGAL)), mx.randrange(16), [mx.randrange(len(LAST)) for _ in range(4)], mx.getrandbits(1),
+                                               mx.randrange(6), mx.getrandbits(64), mx.randrange(3))
         fc, mask = LEGAL[li]
         n = block_len(mask)
         kinds = []
